@@ -5,6 +5,7 @@ import Driver.Hist
 import Driver.Counter
 import Driver.Arms
 import Driver.AllocD
+import Driver.Threads
 namespace Driver
 
 def dispatch (line : String) : String :=
@@ -29,6 +30,7 @@ def dispatch (line : String) : String :=
       | "life" => handleLife args obs
       | "alloc" => handleAlloc args obs
       | "allocinstall" => handleAllocInstall args obs
+      | "thr" => handleThr args obs
       | "armrun" => handleArmRun args obs
       | "armcompile" => handleArmCompile args obs
       | _ => bad ("unknown-tag:" ++ tag)
